@@ -1,7 +1,7 @@
 SPECIFICATION MCSpec
 CONSTANTS
-  BufSize = 4
-  MaxStream = 7
+  BufSize = 3
+  MaxStream = 8
   MaxCached = 2
   Modes = {"rw", "sp"}
   Relays = {0, 1}
